@@ -34,11 +34,11 @@ theorem lnTail_ok (c : Ctx) (hc : c.WF) (h2 : c.prec + 2 ≤ 100000) (ed : ED) (
     rw [← v] at Ff Fv
     refine ⟨_, Ff, ⟨δ, hδ, by simpa using Fv⟩, rfl, ?_⟩
     simp only at hd
-    have hdl : Delivered (goError c.traps ((ctxRound c (ed.step tmp1 (fun k => addOp k tmp1 resAdjust false)).2).2 ||| cInexact)) := by
+    have hdl : Delivered (goError c.traps ((ctxRound c (ed.step tmp1 (fun k => addOp k tmp1 resAdjust false)).2).2 ||| cInexact ||| cRounded)) := by
       rcases hd with hd | ⟨hd, _⟩
       · exact Or.inl hd
       · exact Or.inr hd
-    exact noSys_left _ _ (QuoL.noSys_of_delivered _ _ hdl)
+    exact noSys_left _ _ (noSys_left _ _ (QuoL.noSys_of_delivered _ _ hdl))
 
 /-- the final rounding, with an absolute bound `B` on the distance of `F` from the target -/
 theorem ln_final_abs (c : Ctx) (hc : c.WF) (F : Dec) (hFf : F.form = .finite) (hF0 : rv F ≠ 0) (R B : ℝ)
